@@ -38,7 +38,10 @@ Arguments Ok {A}. Arguments Raise {A}. Arguments Unmodelled {A}.
 Definition suppressed (e : exn) : bool := true.
 
 (* ---------------------------------------------------------------- annotations *)
-Inductive sty := SInt | SFloat | SStr | SBytes | SNone | SDateTime | STimeDelta.
+(* SDate / STime: DateMarshaller / TimeMarshaller are the same ToISOTimeMarshaller as the datetime and timedelta ones,
+   Date/TimeUnmarshaller parse text through the same dateparse memo.  SDecimal / SFraction: ToStringMarshaller and
+   NumberUnmarshaller, no cache on the way (leaf tables of the world) *)
+Inductive sty := SInt | SFloat | SStr | SBytes | SNone | SDateTime | STimeDelta | SDate | STime | SDecimal | SFraction.
 Inductive ann :=
 | AS (s : sty) | ABareList | ABareDict
 | AList (a : ann)            (* list[a] *)
@@ -48,7 +51,8 @@ Inductive ann :=
 Definition sty_eqb (a b : sty) : bool :=
   match a, b with
   | SInt, SInt | SFloat, SFloat | SStr, SStr | SBytes, SBytes | SNone, SNone
-  | SDateTime, SDateTime | STimeDelta, STimeDelta => true
+  | SDateTime, SDateTime | STimeDelta, STimeDelta | SDate, SDate | STime, STime
+  | SDecimal, SDecimal | SFraction, SFraction => true
   | _, _ => false
   end.
 
@@ -303,7 +307,7 @@ Variable load : val -> St -> val * St.
 Variable iso : N -> St -> res N * St.
 Variable parse : N * sty -> St -> res N * St.
 
-Definition is_temporal_sty (t : sty) : bool := match t with SDateTime | STimeDelta => true | _ => false end.
+Definition is_temporal_sty (t : sty) : bool := match t with SDateTime | STimeDelta | SDate | STime => true | _ => false end.
 Definition is_text_sty (t : sty) : bool := match t with SStr | SBytes => true | _ => false end.
 Definition lift {A} (r : res N) (s : A) : res val * A :=
   (match r with Ok a => Ok (VA a) | Raise e => Raise e | Unmodelled => Unmodelled end, s).
@@ -336,7 +340,7 @@ Definition scalar_m (t : sty) (x : val) (s : St) : res val * St :=
   | _ =>
       match t with
       | SBytes | SNone => (Ok x, s)                     (* NoOpMarshaller: the input object itself *)
-      | SDateTime | STimeDelta => (Raise EType, s)      (* lru_cache: unhashable argument *)
+      | SDateTime | STimeDelta | SDate | STime => (Raise EType, s)      (* lru_cache: unhashable argument *)
       | _ => (Unmodelled, s)
       end
   end.
